@@ -75,13 +75,15 @@ type c20Files struct {
 	// every callback is at least the redraw interval after the one before: no line is throttled,
 	// so the bar and the solo bar must draw at exactly the same callbacks
 	noThrottle bool
+	lastPct    int // the percentage of the last line of the current file, -1 = none yet
+	order      []string // the callbacks in the order they were delivered, for the language of orders (cb_lang_ok)
 }
 
 func (c *ctx) c20NewFiles(clock *atomic.Int64, base int64, cols int, label string, gap func() int64) *c20Files {
 	clock.Store(base)
 	return &c20Files{c: c, clock: clock, base: base, gap: gap, label: label, cols: cols,
 		main: trzsz.VerifNewProgress(int32(cols), 0, ""), probe: trzsz.VerifNewProgress(2000, 0, ""),
-		tabs: c20NewTabs(), first: true, pre: -1,
+		tabs: c20NewTabs(), first: true, pre: -1, lastPct: -1,
 		desc: fmt.Sprintf("files(%s): newTextProgressBar(columns=%d)", label, cols)}
 }
 
@@ -123,6 +125,7 @@ func (f *c20Files) call(kind string, num int64, name string) {
 	case "M":
 		f.fileNo++
 		f.name, f.sizes, f.pre, f.lines = name, nil, -1, 0
+		f.lastPct = -1
 		f.solo = trzsz.VerifNewProgress(2000, 0, "")
 		f.desc += fmt.Sprintf(" | file %d: onName(%s)", f.fileNo, c20NameDesc(name))
 	case "Z":
@@ -137,6 +140,16 @@ func (f *c20Files) call(kind string, num int64, name string) {
 		f.desc += " onDone()"
 	case "N":
 		f.desc += fmt.Sprintf(" onNum(%d)", num)
+	}
+	switch kind {
+	case "M":
+		f.order = append(f.order, "M:"+c20Runes(name))
+	case "S":
+		f.order = append(f.order, fmt.Sprintf("S:%d:0:-:-:-", num))
+	case "D":
+		f.order = append(f.order, "D:0:-:-:-")
+	default:
+		f.order = append(f.order, fmt.Sprintf("%s:%d", kind, num))
 	}
 	var pf, sf []string
 	var out string
@@ -226,7 +239,14 @@ func (f *c20Files) call(kind string, num int64, name string) {
 				}
 			}
 		}
-		f.c.c20PctRange(pf[0], f.desc)
+		if v, ok := f.c.c20PctRange(pf[0], f.desc); ok {
+			// in the transfer's own callback order the full size and the remaining size of a file agree, so the
+			// percentage may not fall anywhere between two onName calls
+			if v < f.lastPct {
+				c.violate("pct-decreased", "percentage decreased within a file", fmt.Sprintf("%s: %d%% after %d%%", f.desc, v, f.lastPct))
+			}
+			f.lastPct = v
+		}
 	}
 
 	// ---- the writes, for the comparison with the model
@@ -353,7 +373,98 @@ func (f *c20Files) playPlan(p c20FilePlan) {
 	}
 }
 
+// c20LateStep moves the last onStep before the first onDone behind the following onName
+func c20LateStep(order []string) []string {
+	d, m := -1, -1
+	for i, o := range order {
+		if d < 0 && strings.HasPrefix(o, "D:") {
+			d = i
+		} else if d >= 0 && m < 0 && strings.HasPrefix(o, "M:") {
+			m = i
+		}
+	}
+	if d < 1 || m < 0 || !strings.HasPrefix(order[d-1], "S:") {
+		return order
+	}
+	var out []string
+	out = append(out, order[:d-1]...)
+	out = append(out, order[d:m+1]...)
+	out = append(out, order[d-1])
+	out = append(out, order[m+1:]...)
+	return out
+}
+
 // ---- 2. real transfers
+
+// c20Lag watches the callbacks of a real transfer at the moment they are ATTEMPTED (export hook
+// `before`, outside the serialisation) and makes the goroutine that displays progress lag once per
+// file, the way a slow terminal does: the last data step of a file is held back until the next
+// file has been announced - or for 300 ms, which is what happens when the transfer orders its
+// callbacks (the main goroutine joins the display goroutine before it goes on).  Two callbacks in
+// flight at once mean the transfer does not order them.
+type c20Lag struct {
+	mu         sync.Mutex
+	inflight   []string
+	lastSize   int64
+	delayed    bool
+	mDelivered int
+	overlaps   [][3]string
+	history    []string
+}
+
+func (l *c20Lag) before(kind string, num int64, name string) {
+	l.mu.Lock()
+	what := fmt.Sprintf("%s(%d%s)", map[string]string{"N": "onNum", "M": "onName", "Z": "onSize", "S": "onStep", "D": "onDone", "P": "setPreSize", "U": "setPause"}[kind], num, name)
+	l.history = append(l.history, what)
+	if len(l.inflight) > 0 && len(l.overlaps) < 4 {
+		key, txt := "files:callbacks-overlap", "the transfer makes a progress callback while another one is still under way: it does not order them"
+		if kind == "M" {
+			key, txt = "files:callback-after-next-file", "the next file is announced to the progress bar while a step of the previous file has not been delivered yet"
+		}
+		l.overlaps = append(l.overlaps, [3]string{key, txt, fmt.Sprintf("%s attempted while %s is still under way; callbacks attempted so far: %s",
+			what, strings.Join(l.inflight, ", "), strings.Join(l.history, " "))})
+	}
+	l.inflight = append(l.inflight, what)
+	switch kind {
+	case "M":
+		l.delayed = false
+	case "Z":
+		l.lastSize = num
+	}
+	hold := kind == "S" && !l.delayed && num > 0 && num == l.lastSize
+	if hold {
+		l.delayed = true
+	}
+	seen := l.mDelivered
+	l.mu.Unlock()
+	if hold {
+		for i := 0; i < 300; i++ {
+			time.Sleep(time.Millisecond)
+			l.mu.Lock()
+			moved := l.mDelivered > seen
+			l.mu.Unlock()
+			if moved {
+				break
+			}
+		}
+	}
+}
+
+// done is called when the callback has been delivered
+func (l *c20Lag) done(kind string, num int64, name string) {
+	l.mu.Lock()
+	defer l.mu.Unlock()
+	what := fmt.Sprintf("%s(%d%s)", map[string]string{"N": "onNum", "M": "onName", "Z": "onSize", "S": "onStep", "D": "onDone", "P": "setPreSize", "U": "setPause"}[kind], num, name)
+	for i, x := range l.inflight {
+		if x == what {
+			l.inflight = append(l.inflight[:i], l.inflight[i+1:]...)
+			break
+		}
+	}
+	if kind == "M" {
+		l.mDelivered++
+	}
+}
 
 func c20FillFile(path string, n int, seed int64) []byte {
 	b := make([]byte, n)
@@ -509,11 +620,54 @@ func genProgressFiles(c *ctx) {
 					}
 				}
 				c.count("files:real-transfer")
+				c.emit(true, "pcborder", "1", strings.Join(f.order, "/"))
+				if run == 1 {
+					// the same callbacks with the last step of the first file delivered after the second file's name:
+					// not an order a transfer may produce
+					c.emit(true, "pcborder", "0", strings.Join(c20LateStep(f.order), "/"))
+				}
 				if f.fileNo != len(sc) {
 					c.violate("files:harness", "the real transfer did not announce every file", fmt.Sprintf("%s: %d of %d", f.desc, f.fileNo, len(sc)))
 				}
 				f.finish(true)
 			}
+		}
+	}
+
+	// ---- the ORDER of the callbacks: the display goroutine lags at every file boundary
+	for _, proto := range []int{2, 3, 4} {
+		for _, onSender := range []bool{true, false} {
+			run++
+			dir := filepath.Join(root, fmt.Sprint(run))
+			names := []string{"file1.bin", "file2.bin", "file3.bin"}
+			sizesL := []int{64 * 1024, 300 * 1024, 5000}
+			var paths []string
+			for k := range names {
+				c20FillFile(filepath.Join(dir, "src", names[k]), sizesL[k], int64(3000*run+k))
+				paths = append(paths, filepath.Join(dir, "src", names[k]))
+			}
+			os.MkdirAll(filepath.Join(dir, "dst"), 0755)
+			side := "receiver"
+			if onSender {
+				side = "sender"
+			}
+			f := c.c20NewFiles(&clock, base, 120, fmt.Sprintf("real transfer with a lagging display goroutine, protocol %d, callbacks of the %s, files 65536 307200 5000 bytes", proto, side),
+				func() int64 { return 1000 })
+			f.noThrottle = true
+			lag := &c20Lag{}
+			msg := trzsz.VerifRunFilesPairLag(paths, filepath.Join(dir, "dst"), proto, onSender,
+				func(kind string, num int64, name string) { f.call(kind, num, name); lag.done(kind, num, name) }, lag.before)
+			time.Sleep(5 * time.Millisecond)
+			for _, v := range lag.overlaps {
+				c.violate(v[0], v[1], f.desc+": "+v[2])
+			}
+			if msg != "" {
+				c.violate("files:harness", "the real transfer did not complete", f.desc+": "+msg)
+				continue
+			}
+			c.count("files:real-transfer-lagging-display")
+			c.emit(true, "pcborder", "1", strings.Join(f.order, "/"))
+			f.finish(true)
 		}
 	}
 
